@@ -27,6 +27,8 @@ import (
 type XOp struct {
 	K   string `json:"k"`
 	Key int    `json:"key,omitempty"`
+	// Up (cases with XCase.Alias; g and r): the call spells its primary key in upper case. Both spellings map to one inner key.
+	Up bool `json:"up,omitempty"`
 }
 
 // XDec is a scheduler decision (controlled and squeezed mode): C selects start/complete, I the target, OK the creation outcome.
@@ -61,6 +63,11 @@ type XCase struct {
 	// creations hand over nil interface values, typed nil pointers and non-nil pointers (controlled/squeezed: XDec.Nil; free: NilPct)
 	Iface   bool   `json:"iface,omitempty"`
 	NilPct  int    `json:"nilpct,omitempty"`  // free-running mode, Iface: percentage of successful creations that return a nil value
+	// Alias (not with Iface): the cache is lru.ECache[string, string, int] whose key mapping lower-cases the primary key, so that every
+	// key but the empty one has two primary-key spellings ("a" and "A", XOp.Up) which meet on one inner key: single-flight, residency,
+	// recency and Remove go by the inner key; the create function gets the spelling of the call that creates, and the delete callback
+	// must get (that spelling, the value) - the pair the create function produced - whichever spelling later calls hit or remove it with.
+	Alias bool `json:"alias,omitempty"`
 	History []XRec `json:"history,omitempty"` // filled in on failure
 }
 
@@ -90,8 +97,9 @@ var errCreate = errors.New("creation failed (harness)")
 
 // xval is what the harness knows about a successfully created value.
 type xval struct {
-	key  string
+	key  string // inner key
 	kind int
+	pk   string // the primary-key spelling the create function was called with
 }
 
 // xgate is a creation parked inside the create function (controlled and squeezed mode). Outcome sent through ch: 0 = fail, 1+kind = ok.
@@ -110,7 +118,12 @@ type xrun struct {
 	walk     func() walkRes // overlay accessor VerifWalk (walkRes.OK false if absent)
 	withLock func(func())   // overlay accessor VerifWithLock (nil if absent)
 	walks    int
-	mu       sync.Mutex
+	// retention oracle (retain.go; structural unit of C11, cases with an interface-typed value): weak pointers to every *box a
+	// creation hands over; keep = runtime.KeepAlive of the cache object
+	track  *retTracker
+	retain RetainInfo
+	keep   func()
+	mu     sync.Mutex
 	stamp    atomic.Int64
 	nextVal  atomic.Int64
 	hist     []XRec
@@ -126,6 +139,8 @@ type xrun struct {
 	inGet                        map[string]int
 	midMut                       bool // Remove/Clear/eviction ran between a creation's start and its insertion
 	epilogue                     bool // every worker call has returned; the epilogue of finish() is running
+	aliasHit, aliasLeft          bool // Alias: a call was served a value created through the other spelling / such a value was passed to the delete callback later
+	aliasHitVals                 map[int]bool
 	// free mode
 	free     bool
 	testName string
@@ -154,7 +169,24 @@ func (x *xrun) setViol(sig, format string, a ...any) {
 	}
 }
 
-func (x *xrun) create(k string) (int, int, error) {
+// inner is the key mapping of the cache under test as the harness knows it (identity unless XCase.Alias).
+func (x *xrun) inner(pk string) string {
+	if x.c.Alias {
+		return strings.ToLower(pk)
+	}
+	return pk
+}
+
+// spell is the primary key of a call.
+func (x *xrun) spell(op XOp) string {
+	if x.c.Alias && op.Up {
+		return strings.ToUpper(xKeyName(op.Key))
+	}
+	return xKeyName(op.Key)
+}
+
+func (x *xrun) create(pk string) (int, int, error) {
+	k := x.inner(pk)
 	id := gated.Goid()
 	x.mu.Lock()
 	x.inFl[k]++
@@ -222,7 +254,7 @@ func (x *xrun) create(k string) (int, int, error) {
 		return 0, 0, x.errCreate
 	}
 	v := int(x.nextVal.Add(1))
-	x.created[v] = xval{k, kind}
+	x.created[v] = xval{k, kind, pk}
 	if kind != KindValue {
 		x.nilMade++
 	}
@@ -236,7 +268,8 @@ func (x *xrun) create(k string) (int, int, error) {
 // has been created for the key and not been deleted yet. There is at most one: a creation for a key starts only while the key is
 // not resident, and a value leaves the cache through this callback and in no other way. (With none left, the latest deleted one
 // is charged a second time.)
-func (x *xrun) onDelete(k string, v int, kind int) {
+func (x *xrun) onDelete(pk string, v int, kind int) {
+	k := x.inner(pk)
 	id := gated.Goid()
 	if x.freeSlowDelete { // a delete callback that takes its time (free-running mode only)
 		for i := 0; i < 3+x.c.Yields*4; i++ {
@@ -269,6 +302,12 @@ func (x *xrun) onDelete(k string, v int, kind int) {
 	}
 	if ck, ok := x.created[v]; !ok || ck.key != k {
 		x.setViol("lru:deleted-unknown", "the delete callback got (%q,#%d) which the create function never produced for that key", k, v)
+	} else if ck.pk != pk {
+		x.setViol("lru:deleted-wrong-pk", "the delete callback got (%q,#%d), but value #%d was created by the create function for the primary key %q: the pair handed to the callback is not a pair that was created "+
+			"(both spellings map to the inner key %q)", pk, v, v, ck.pk, k)
+	}
+	if x.aliasHitVals[v] {
+		x.aliasLeft = true
 	}
 	if rec := x.cur[id]; rec != nil {
 		rec.Deleted = append(rec.Deleted, kv{k, v})
@@ -308,16 +347,24 @@ func (x *xrun) do(w int, op XOp) {
 	rec.Call = x.stamp.Add(1)
 	switch op.K {
 	case "g":
-		v, kind, err := x.get(rec.Key)
+		v, kind, err := x.get(x.spell(op))
 		rec.Ret = x.stamp.Add(1)
 		rec.Val, rec.Nil, rec.Err = v, kind, err != nil
+		if x.c.Alias && err == nil {
+			x.mu.Lock()
+			if cv, ok := x.created[v]; ok && cv.pk != x.spell(op) { // served by a value created through the other spelling
+				x.aliasHit = true
+				x.aliasHitVals[v] = true
+			}
+			x.mu.Unlock()
+		}
 		if err != nil && !sameErr(err, x.errCreate) {
 			x.mu.Lock()
 			x.setViol("lru:foreign-error", "GetOrCreate(%q) returned %s, which the create function never produced", rec.Key, errText(err))
 			x.mu.Unlock()
 		}
 	case "r":
-		ok := x.remove(rec.Key)
+		ok := x.remove(x.spell(op))
 		rec.Ret = x.stamp.Add(1)
 		if ok {
 			rec.Result = 1
@@ -348,7 +395,7 @@ const (
 
 func newXrun(c XCase, mode, prop, testName string) (*xrun, error) {
 	x := &xrun{c: c, prop: prop, free: mode == modeFree, testName: testName, cur: map[uint64]*XRec{}, inFl: map[string]int{}, created: map[int]xval{}, deleted: map[int]int{},
-		gates: map[string]*xgate{}, inGet: map[string]int{}}
+		gates: map[string]*xgate{}, inGet: map[string]int{}, aliasHitVals: map[int]bool{}}
 	x.freeSlowDelete = x.free && c.SlowDelete
 	x.errCreate = errCreate
 	if k := normErr(c.ErrKind); k != ErrPlain {
@@ -386,7 +433,13 @@ func newXrun(c XCase, mode, prop, testName string) (*xrun, error) {
 			case kind == KindNilPtr:
 				return (*box)(nil), nil
 			}
-			return &box{id: id}, nil
+			b := &box{id: id}
+			if x.track != nil {
+				x.mu.Lock()
+				trackVal(x.track, id, b)
+				x.mu.Unlock()
+			}
+			return b, nil
 		}, df)
 		if err != nil {
 			return x, err
@@ -401,16 +454,34 @@ func newXrun(c XCase, mode, prop, testName string) (*xrun, error) {
 		}
 		x.remove, x.clear = cache.Remove, cache.Clear
 		x.walk, x.withLock = walkOf(cache.ECache), withLockOf(cache.ECache)
+		x.keep = func() { runtime.KeepAlive(cache) }
+		if prop == "C11" && mode == modeSqueezed {
+			x.track = &retTracker{}
+		}
 		return x, nil
 	}
 	var df lru.OnDeleteElemF[string, int]
 	if !c.NoCB {
 		df = func(k string, v int) { x.onDelete(k, v, KindValue) }
 	}
-	cache, err := lru.NewCache[string, int](c.Cap, func(k string) (int, error) {
+	cf := func(k string) (int, error) {
 		id, _, err := x.create(k)
 		return id, err
-	}, df)
+	}
+	if c.Alias {
+		cache, err := lru.NewECache[string, string, int](c.Cap, strings.ToLower, cf, df)
+		if err != nil {
+			return x, err
+		}
+		x.get = func(pk string) (int, int, error) {
+			v, err := cache.GetOrCreate(pk)
+			return v, KindValue, err
+		}
+		x.remove, x.clear = cache.Remove, cache.Clear
+		x.walk, x.withLock = walkOf(cache), withLockOf(cache)
+		return x, nil
+	}
+	cache, err := lru.NewCache[string, int](c.Cap, cf, df)
 	if err != nil {
 		return x, err
 	}
@@ -434,11 +505,15 @@ type XInfo struct {
 	SqueezedCompletion, SqueezedCall   bool // ... overtaken by the insertion of another creation / by a call started behind it
 	NoHook                             bool // squeezed mode: the overlay accessor is absent, nothing was run
 	Diverged                           bool // structural unit (C11): a functional oracle disagreed (C09's business), case abandoned
+	AliasHit, AliasLeft                bool // Alias: see xrun
+	Retain                             RetainInfo // structural unit (C11), interface-typed value: the retention measurements (retain.go)
 }
 
 func (x *xrun) fill(info *XInfo) {
 	info.Overlap, info.MidMutation, info.Calls = x.overlap, x.midMut, len(x.hist)
 	info.NilCreated, info.NilDeleted, info.NilHits, info.Walks = x.nilMade, x.nilDeleted, x.nilHits, x.walks
+	info.Retain = x.retain
+	info.AliasHit, info.AliasLeft = x.aliasHit, x.aliasLeft
 }
 
 // structural reads the recency list through the overlay accessor at a moment when no call is inside a critical section or
@@ -473,6 +548,30 @@ func (x *xrun) structural(parked int, when string) *vstat.Violation {
 	return nil
 }
 
+// retention: the collector-based oracle of retain.go at a moment when every call has returned (the workers are idle, none of them is
+// inside the cache). There is no reference model here: at most bound value objects - the residents' - may still resolve, whichever.
+func (x *xrun) retention(when string, bound int) *vstat.Violation {
+	if x.track == nil {
+		return nil
+	}
+	switch when {
+	case "epilogue":
+		x.retain.AfterEpilogue = true
+	case "final":
+		x.retain.AfterFinal = true
+	}
+	x.mu.Lock()
+	defer x.mu.Unlock()
+	return x.track.measure(&x.retain, bound, nil, -1, x.keep, func() string {
+		at := map[string]string{"epilogue": "and the epilogue's insertions of fresh keys", "final": "and the final Clear"}[when]
+		cb := "with a delete callback"
+		if x.c.NoCB {
+			cb = "WITHOUT a delete callback"
+		}
+		return fmt.Sprintf("concurrent run, cache of capacity %d built %s, after every call has returned %s: at most %d entries resident", x.c.Cap, cb, at, bound)
+	})
+}
+
 // verdict combines the functional verdict fv and the structural one wv. C09 owns the functional oracles and, of the structure,
 // "the number of resident values never exceeds the capacity"; the structural unit of C11 owns the structure and leaves the rest to C09.
 func (x *xrun) verdict(fv, wv *vstat.Violation, info *XInfo) (v *vstat.Violation, stop bool) {
@@ -499,19 +598,33 @@ func (x *xrun) verdict(fv, wv *vstat.Violation, info *XInfo) (v *vstat.Violation
 // Epilogue: min(capacity, 4) GetOrCreate calls on fresh keys, one after the other, whose creations succeed at once. They are
 // ordinary calls of the history; in a full cache each of them must evict the then least recently used entry, so the recency
 // order the concurrent part has left behind is read back through the delete callbacks (a cache without callback shows
-// less). An unbounded cache gets 2 such calls, which must not evict.
+// less). An unbounded cache gets 2 such calls, which must not evict. A run that carries the retention oracle gets 120 more.
 func (x *xrun) finish(info *XInfo) *vstat.Violation {
 	wv := x.structural(0, "after every call has returned")
 	x.epilogue = true
 	nEpi := min(x.c.Cap, 4)
 	if x.c.Cap >= hugeCap {
 		nEpi = 2
+	} else if x.track != nil {
+		// retention oracle: a long eviction history on top of what the concurrent part has left behind - 120 more fresh keys, each
+		// evicting the then least recently used entry
+		nEpi += 120
+		x.retain.AfterEvictions100 = true
 	}
 	for i := 0; i < nEpi; i++ {
 		x.do(-1, XOp{K: "g", Key: xFreshKey + i})
 	}
 	if wv == nil {
 		wv = x.structural(0, "after every call has returned and the epilogue's insertions of fresh keys")
+	}
+	if wv == nil && x.track != nil {
+		bound := x.c.Cap
+		if x.walk != nil {
+			if r := x.walk(); r.OK {
+				bound = min(bound, r.Resident)
+			}
+		}
+		wv = x.retention("epilogue", bound)
 	}
 	x.do(-1, XOp{K: "c"})
 	if wv == nil {
@@ -521,6 +634,9 @@ func (x *xrun) finish(info *XInfo) *vstat.Violation {
 		if r := x.walk(); r.OK && r.Resident != 0 {
 			wv = vstat.V("lru:walk-resident-after-clear", "after the final Clear the cache still holds %d entries", r.Resident)
 		}
+	}
+	if wv == nil {
+		wv = x.retention("final", 0)
 	}
 	x.mu.Lock()
 	defer x.mu.Unlock()
